@@ -529,6 +529,12 @@ func evalRanges(c *hx.Ctx, or *hx.Oracle, r *hx.RNG, tc trieCase) {
 			alts = append(alts, x)
 		}
 		if m >= 2 && len(h.ProofKeys) == 0 {
+			// everything but the LAST element omitted (the proof is the honest one of [first, last]): re-inserting the
+			// last key changes nothing on the right boundary path, so only a verifier that really recomputes every
+			// hash between the boundaries (no cached hash of a proof node survives) can refuse it
+			w := cp("only-last-element-kept")
+			w.Keys, w.Values = w.Keys[m-1:], w.Values[m-1:]
+			alts = append(alts, w)
 			x := cp("first-element-omitted") // first stays; the proof is the one of [first, last]
 			x.Keys, x.Values = x.Keys[1:], x.Values[1:]
 			alts = append(alts, x)
